@@ -144,8 +144,10 @@ theorem genExecute_moves (Y : YieldFn) (s : Sess) (tk : PTask) (hid : tk.id = t)
   · exact h0
   · split
     · exact h0
-    · rw [← hid]
-      exact Moves.addRe s (invoke s tk) _ (hid ▸ h0)
+    · split
+      · exact h0
+      · rw [← hid]
+        exact Moves.addRe s (invoke s tk) _ (hid ▸ h0)
 
 theorem teardown_moves (s : Sess) (t : Nat) : Moves t s (teardown s t).1 := by
   unfold teardown
@@ -153,10 +155,12 @@ theorem teardown_moves (s : Sess) (t : Nat) : Moves t s (teardown s t).1 := by
   · exact Moves.refl s
   · split
     · exact Moves.refl s
-    · simp only []
-      split
-      · exact collectProducts_moves s t
-      · split <;> exact collectProducts_moves s t
+    · split
+      · exact Moves.refl s
+      · simp only []
+        split
+        · exact collectProducts_moves s t
+        · split <;> exact collectProducts_moves s t
 
 theorem setupChain_moves (s : Sess) (t : Nat) : Moves t s (setupChain t Generated.setupOrder s).1 := by
   rw [setupChain_eval]
@@ -764,10 +768,12 @@ theorem teardown_sameObs (s : Sess) (t : Nat) : SameObs s (teardown s t).1 := by
   · exact SameObs.refl s
   · split
     · exact SameObs.refl s
-    · simp only []
-      split
-      · exact collectProducts_sameObs s t
-      · split <;> exact collectProducts_sameObs s t
+    · split
+      · exact SameObs.refl s
+      · simp only []
+        split
+        · exact collectProducts_sameObs s t
+        · split <;> exact collectProducts_sameObs s t
 
 theorem genExecute_obs (Y : YieldFn) (s : Sess) (tk : PTask) :
     (genExecute Y s tk).1.w = s.w ∧ (genExecute Y s tk).1.log = s.log ++ [tk.id] ∧
@@ -779,9 +785,11 @@ theorem genExecute_obs (Y : YieldFn) (s : Sess) (tk : PTask) :
   · simp [invoke]
   · split
     · simp [invoke]
-    · have h := recreate_frame { invoke s tk with tasks := (invoke s tk).tasks ++ Y tk.id (received tk) } tk.id
-      simp only [h.2.1, h.2.2.1, h.2.2.2.1, h.2.2.2.2.1, h.2.2.2.2.2.1]
-      simp [invoke]
+    · split
+      · simp [invoke]
+      · have h := recreate_frame { invoke s tk with tasks := (invoke s tk).tasks ++ Y tk.id (received tk) } tk.id
+        simp only [h.2.1, h.2.2.1, h.2.2.2.1, h.2.2.2.2.1, h.2.2.2.2.2.1]
+        simp [invoke]
 
 /-- Everything `runPhases` can do to the observable part of the session: either no body ran (world, body log and
 received-lists log are unchanged), or the body ran exactly once, on the task record left by the `provisional`
@@ -1167,15 +1175,17 @@ theorem complete_all_done {ts0 : List PTask} {s : Sess} {h : List Nat} (hi : LIn
       obtain ⟨a, ha, hv⟩ := List.mem_map.1 h1
       rw [← tv_inj' hv]; exact ha
 
-/-- A generator that is not skipped and does not raise leaves every task it defined in `session.tasks`. -/
+/-- A generator that is not skipped, does not raise and defines only collectable tasks leaves every task it defined in
+`session.tasks`. -/
 theorem protocol_gen_tasks (Y : YieldFn) (F : BodyFn) (s : Sess) (g : Nat) (G : PTask) (hf : findTask s.tasks g = some G)
-    (hgen : G.gen = true) (hnf : G.fails = false) (hfm : g ∉ s.failMarks) (k : PTask)
+    (hgen : G.gen = true) (hnf : G.fails = false) (hfm : g ∉ s.failMarks)
+    (hcoll : ∀ x ∈ Y g (received (resolvedDeps s.w.fs G)), x.uncollectable = false) (k : PTask)
     (hk : k ∈ Y g (received (resolvedDeps s.w.fs G))) : k ∈ (protocol Y F s g).tasks := by
   have hsp := setupProvisional_spec s g G hf
   have hgen1 : (resolvedDeps s.w.fs G).gen = true := by unfold resolvedDeps; split <;> exact hgen
   have hnf1 : (resolvedDeps s.w.fs G).fails = false := by unfold resolvedDeps; split <;> exact hnf
   have hid : (resolvedDeps s.w.fs G).id = g := findTask_id hsp.2
-  generalize resolvedDeps s.w.fs G = G1 at hsp hgen1 hnf1 hid hk
+  generalize resolvedDeps s.w.fs G = G1 at hsp hgen1 hnf1 hid hk hcoll
   unfold protocol
   rw [(reportChain_frame _ g _).1]
   unfold runPhases
@@ -1195,8 +1205,15 @@ theorem protocol_gen_tasks (Y : YieldFn) (F : BodyFn) (s : Sess) (g : Nat) (G : 
     | cons a as => rfl
   have hge : genExecute Y (setupProvisional s g) G1 =
       (recreate { invoke (setupProvisional s g) G1 with tasks := (invoke (setupProvisional s g) G1).tasks ++ Y G1.id (received G1) } G1.id, false) := by
+    have hany : (Y G1.id (received G1)).any (·.uncollectable) = false := by
+      rw [hid]
+      cases ha : (Y g (received G1)).any (·.uncollectable) with
+      | false => rfl
+      | true =>
+        obtain ⟨x, hx, hxu⟩ := List.any_eq_true.1 ha
+        rw [hcoll x hx] at hxu; cases hxu
     unfold genExecute
-    simp [hnf1, hne]
+    simp [hnf1, hne, hany]
   rw [hge]
   simp only []
   have htasks : (recreate { invoke (setupProvisional s g) G1 with tasks := (invoke (setupProvisional s g) G1).tasks ++ Y G1.id (received G1) } G1.id).tasks
@@ -1675,7 +1692,9 @@ theorem genExecute_twp (Y : YieldFn) (s : Sess) (tk : PTask) (t : Nat) : TwpExt 
   · exact TwpExt.of_eq rfl
   · split
     · exact TwpExt.of_eq rfl
-    · exact TwpExt.of_eq (by rw [(recreate_frame _ _).2.2.2.2.2.2.1]; rfl)
+    · split
+      · exact TwpExt.of_eq rfl
+      · exact TwpExt.of_eq (by rw [(recreate_frame _ _).2.2.2.2.2.2.1]; rfl)
 
 theorem teardown_twp (s : Sess) (t : Nat) : TwpExt t s (teardown s t).1 := by
   unfold teardown
@@ -1683,10 +1702,12 @@ theorem teardown_twp (s : Sess) (t : Nat) : TwpExt t s (teardown s t).1 := by
   · exact TwpExt.refl t s
   · split
     · exact TwpExt.refl t s
-    · simp only []
-      split
-      · exact collectProducts_twp s t
-      · split <;> exact collectProducts_twp s t
+    · split
+      · exact TwpExt.refl t s
+      · simp only []
+        split
+        · exact collectProducts_twp s t
+        · split <;> exact collectProducts_twp s t
 
 theorem protocol_twp (Y : YieldFn) (F : BodyFn) (s : Sess) (t : Nat) : TwpExt t s (protocol Y F s t) := by
   unfold protocol
@@ -1825,15 +1846,16 @@ theorem protocol_plain (Y : YieldFn) (F : BodyFn) (s : Sess) (k : Nat) (K : PTas
       | false =>
         simp only [Bool.false_eq_true, false_or]
         have hf2 : findTask (afterBody F s K).tasks k = some K := hf
+        have hop : K.ordinaryProds = K.allProds := by unfold PTask.ordinaryProds PTask.allProds; rw [hpp]; rfl
         unfold teardown
         rw [hf2]
-        simp only [hng, Bool.false_eq_true, if_false]
-        rw [hcp (afterBody F s K) hf2 rfl, hf2]
-        simp only []
+        simp only [hng, Bool.false_eq_true, if_false, hop]
         by_cases hmiss : K.allProds.any (fun p => (lookup (afterBody F s K).w.fs p).isNone) = true
         · simp only [hmiss, if_true]
           rw [reportChain_eval]; rfl
         · simp only [hmiss, Bool.false_eq_true, if_false]
+          rw [hcp (afterBody F s K) hf2 rfl, hf2]
+          simp only [hmiss, Bool.false_eq_true, if_false]
           rw [reportChain_eval]
           simp only [hisgen _ hf2, Bool.false_eq_true, if_false]
           rfl
